@@ -124,13 +124,15 @@ def batch_runs(ctx, kinds=("span", "log"), focus=None):
         fixed = ["2,1,1,2,1,1,1,0,1,0,0,0", "1,1,2,1,1,1,0,3,0,0,0,0", "2,2,2,1,0,2,1,0,1,0,0,0", "2,1,2,1,0,1,0,0,0,1,0,0",
                  "2,1,1,2,1,0,0,1,0,0,0,1"]
         if focus == "C02":
-            fixed += ["1,1,1,1,2,1,0,0,1,0,1,0", "2,1,1,1,1,2,1,2,1,0,0,0"]
+            # two flushers + failing exporter results; racing shutdowns; an exporter whose own ForceFlush
+            # always reports failure (expfail = 2) with an untimed flush followed by Shutdown
+            fixed += ["1,1,1,1,2,1,0,0,1,0,1,0", "2,1,1,1,1,2,1,2,1,0,0,0", "2,1,1,2,1,1,1,0,1,0,2,0", "2,2,1,1,1,1,0,2,0,0,2,1"]
         if focus == "C03":
             fixed += ["3,2,2,2,1,1,1,0,0,0,0,0", "3,2,3,1,0,1,0,0,0,0,0,0"]
         for sc in fixed:
             runs.append(["explore", k, "dfs", 10 ** 7, s, sc, 2 if thorough else 1])
         # scenario families with a fixed shape under random scheduling (deeper in one corner)
-        for sc in fixed[:3]:
+        for sc in fixed[:3] + ([fixed[-2], fixed[-1]] if focus == "C02" else []):
             runs.append(["explore", k, "random", n // 2, s + 77, sc])
     return runs
 
